@@ -33,13 +33,13 @@ def cases(tier):
         for (a, b) in MPAIRS:
             for n0 in ((1,) if (cont == 5 and tier == 'quick') else (1, 2)):
                 for (x, y) in ((a, b), (b, a)) if a != b else ((a, b),):
-                    if cont == 5 and tier == 'quick' and (x, y) == ('REMOVE', 'REMOVE'):
-                        continue   # 160-190 s per scheduling point even on a one-key tree: thorough tier
+                    if cont == 5 and tier == 'quick' and (x, y) in (('REMOVE', 'REMOVE'), ('PUT', 'REMOVE'), ('REMOVE', 'PUT')):
+                        continue   # a removal from a tree that the other call has just restructured symbolically: 160 s .. no verdict in 600 s per scheduling point: thorough tier
                     if cont == 5:
                         # tree: scheduling point constant per query (one symbolic restructuring by T2 per query instead of one per point)
                         for sp in (0, 1, 2, 3, 4, 99):
                             out.append(Case('c13.%s.%s_%s.n%d.s%d' % (name, x, y, n0, sp), 'schedmap.c', {'VF_CONT': cont, 'VF_OP1': MOPS[x], 'VF_OP2': MOPS[y], 'VF_N0': n0, 'VF_SCHED': sp}, unwind=8,
-                                            unwindset={'put_obj': 4, 'remove_obj': 4, 'remove_min': 4, 'free_objs': 4}, checks='func', timeout=600, funcs=MF[cont], object_bits=10,
+                                            unwindset={'put_obj': 4, 'remove_obj': 4, 'remove_min': 4, 'free_objs': 4}, checks='func', timeout=600 if tier == 'quick' else 2400, funcs=MF[cont], object_bits=10,
                                             desc='%s: T1=%s overlapped by T2=%s at scheduling point %d (0 before, k = k-th outermost lock acquire/release of T1, 99 after), %d initial keys; keys/values symbolic' % (name, x, y, sp, n0)))
                         continue
                     out.append(Case('c13.%s.%s_%s.n%d' % (name, x, y, n0), 'schedmap.c', {'VF_CONT': cont, 'VF_OP1': MOPS[x], 'VF_OP2': MOPS[y], 'VF_N0': n0}, unwind=8,
